@@ -799,6 +799,8 @@ class Interp:
             return self.project(st, v, {"dc": p[1]}, None)
         if k == "idx":
             return self.index_value(st, v, p[1])
+        if k == "deref":
+            return self.project(st, v, "deref", None)
         raise Unanalysable("path %r" % (p,))
 
     def place_loc(self, st, frame, place):
@@ -1206,6 +1208,18 @@ class Interp:
                 qv = Lin(qt, 0) + Lin.atom(fa)
                 mv = Lin.atom(("mod", rest, c))
             return VInt(w, s, lin=qv if base == "Div" else mv)
+        if base in ("Lt", "Ge") and s and a.bv is not None and isinstance(b, VInt) and lin_of(st, b).is_const() and lin_of(st, b).c == 0:
+            # sign test of a bit pattern (`(num << (32 - len)) < 0`): the top cell decides
+            top = a.bv[0]
+            cc = cell_const(st, top)
+            if cc is not None:
+                return VBool((cc == 1) if base == "Lt" else (cc == 0))
+            if isinstance(top, tuple) and not isinstance(top[0], str):
+                atom, i = top
+                cur = st.aset(atom)
+                if cur.max() != INF and cur.min() >= 0 and int(cur.max()).bit_length() <= i + 1:
+                    neg = ("in", atom, IntSet.range(1 << i, (1 << (i + 1)) - 1))
+                    return VBool(neg if base == "Lt" else negate(neg))
         if base in ("Eq", "Ne", "Lt", "Le", "Gt", "Ge"):
             return self.cmp(st, base, lin_of(st, a), lin_of(st, b))
         if base in ("BitAnd", "BitOr", "BitXor"):
@@ -1678,6 +1692,26 @@ class Interp:
             except Unanalysable:
                 r = None
             lo, hi = (tr.min(), tr.max()) if (r is None or r.is_empty()) else (max(tr.min(), r.min()), min(tr.max(), r.max()))
+            # a leaf that is just a conversion of its arguments (`|v| v as u8` on a value that fits,
+            # `x + 1`): use the expression itself instead of an opaque application
+            try:
+                res, atoms = self.leaf_paths(st, app)
+                if len(res) == 1 and isinstance(res[0][1], VInt):
+                    s2, rv = res[0]
+                    rl = lin_of(s2, rv)
+                    if all(a in atoms for a in rl.atoms()):
+                        out = Lin.const(rl.c)
+                        okk = True
+                        for (a, k) in rl.terms:
+                            arg = app.args[atoms.index(a)]
+                            if not isinstance(arg, VInt):
+                                okk = False
+                                break
+                            out = out + lin_of(st, arg).scale(k)
+                        if okk:
+                            return VInt(t["w"], t["s"], lin=out)
+            except Unanalysable:
+                pass
             return VInt(t["w"], t["s"], lin=Lin.atom(("app", b["def"], tuple(valkey(a) for a in app.args), lo, hi)))
         return app
 
